@@ -216,13 +216,38 @@ let bulk_qop (s : string) : (bulk_kind * int M.qop list * int M.qop option) opti
   | ["peeks"; offs] -> zs_opt offs >>= fun zs -> Some (BPeeks, List.map (fun z -> M.QPeek z) zs, None)
   | _ -> None
 
-let bulk_sop (s : string) : (bulk_kind * int M.sop list * int M.sop option) option =
+(* Stack lines of round 5 (harness/cmd/mlinktrace/stacktyped.go): first word S<t><c>, t = element
+   type (i int, b byte, o bool, h int16, t [3]byte, f float32, p *int, s string, w a 40-byte
+   struct), c = constructor (n New, z zero value).  Elements travel as integer codes and the model
+   is polymorphic in the element type, so such a line is replayed as an S line; the codes of a
+   bulk insertion cycle where the type is small.  The machine op type is extended by the
+   re-entrant traversal "reach", which is a function of the unchanged state. *)
+type xsop = Plain of int M.sop | Reach
+
+(* an uppercase type letter marks a spec-only line (2^15 .. 2^16+1 elements): the extracted model, one
+   list traversal per operation, is not run on it; the reference (sastep) gives both the prediction
+   and the verdict *)
+let stack_kind k =
+  if k = "S" then Some (0, false)
+  else if String.length k = 3 && k.[0] = 'S' && (k.[2] = 'n' || k.[2] = 'z') && String.contains "ibohtfpsw" (Char.lowercase_ascii k.[1]) then
+    Some ((match Char.lowercase_ascii k.[1] with 'b' -> 250 | 'o' -> 1 | 'h' -> 30000 | 't' | 'f' -> 8388608 | 'p' -> 131071 | _ -> 0),
+          k.[1] <> Char.lowercase_ascii k.[1])
+  else None
+
+let cycled cycle v = if cycle > 0 && v > 0 then 1 + (v - 1) mod cycle else v
+
+let bulk_sop cycle (s : string) : (bulk_kind * xsop list * xsop option) option =
+  let vals b n = List.map (cycled cycle) (seq_vals b n) in
   match String.split_on_char ':' s with
-  | ["pushn"; n; b] -> count_opt n >>= fun n -> int_opt b >>= fun b -> Some (BUnit, List.map (fun v -> M.SPush v) (seq_vals b n), None)
-  | ["addn"; n; b] -> count_opt n >>= fun n -> int_opt b >>= fun b -> Some (BUnit, List.map (fun v -> M.SAdd v) (seq_vals b n), None)
-  | ["popn"; n] -> count_opt n >>= fun n -> Some (BValues, List.init n (fun _ -> M.SPop), None)
-  | ["peeks"; offs] -> zs_opt offs >>= fun zs -> Some (BPeeks, List.map (fun z -> M.SPeek z) zs, None)
+  | ["pushn"; n; b] -> count_opt n >>= fun n -> int_opt b >>= fun b -> Some (BUnit, List.map (fun v -> Plain (M.SPush v)) (vals b n), None)
+  | ["addn"; n; b] -> count_opt n >>= fun n -> int_opt b >>= fun b -> Some (BUnit, List.map (fun v -> Plain (M.SAdd v)) (vals b n), None)
+  | ["popn"; n] -> count_opt n >>= fun n -> Some (BValues, List.init n (fun _ -> Plain M.SPop), None)
+  | ["peeks"; offs] -> zs_opt offs >>= fun zs -> Some (BPeeks, List.map (fun z -> Plain (M.SPeek z)) zs, None)
   | _ -> None
+
+let parse_xsop s = if s = "reach" then Some Reach else (match parse_sop s with Some o -> Some (Plain o) | None -> None)
+
+let seq_text l = if l = [] then "." else String.concat "~" (List.map string_of_int l)
 
 let rec iota n = if n <= 0 then [] else iota (n - 1) @ [n - 1]
 
@@ -241,12 +266,26 @@ let queue_history (step : 's -> int M.qop -> 's * int M.out) (init : 's) ops =
     [one (M.QEach always); one M.QLen; one M.QIsEmpty; one M.QFront; one (M.QPeek (z_of_int 1))] in
   history parse_qop bulk_qop st obs init ops
 
-let stack_history (step : 's -> int M.sop -> 's * int M.sout) (init : 's) ops =
-  let st s o = let (s', r) = step s o in (s', show_sout r) in
+(* "reach": every traversal (the outer Each, the nested ones at every element, the two pulled ones)
+   yields what it yields alone, and the observers called from inside the callback answer as they do
+   outside; so the text is rendered from the machine's own observers on the unchanged state *)
+let reach_text (obs : int M.sop -> int M.sout) =
+  let lst o = match obs o with M.TList l -> l | _ -> failwith "list" in
+  let all = lst (M.SEach always) and slice = lst M.SSlice in
+  let after1 s = String.sub s 1 (String.length s - 1) in
+  let len = after1 (show_sout (obs M.SLen)) and empty = after1 (show_sout (obs M.SIsEmpty)) and top = after1 (show_sout (obs M.STop)) in
+  let part i v =
+    Printf.sprintf "%d(%s,%s,%s,%s,%s,%s)" v len empty top (after1 (show_sout (obs (M.SPeek (z_of_int i))))) (seq_text all) (seq_text slice) in
+  "E" ^ String.concat "+" (List.mapi part all) ^ "|" ^ seq_text all ^ "|" ^ seq_text all
+
+let stack_history cycle (step : 's -> int M.sop -> 's * int M.sout) (init : 's) ops =
+  let st s = function
+    | Plain o -> let (s', r) = step s o in (s', show_sout r)
+    | Reach -> (s, reach_text (fun o -> snd (step s o))) in
   let obs s =
     let one o = show_sout (snd (step s o)) in
     [one M.SSlice; one (M.SEach always); one M.SLen; one M.SIsEmpty; one M.STop; one (M.SPeek (z_of_int 1))] in
-  history parse_sop bulk_sop st obs init ops
+  history parse_xsop (bulk_sop cycle) st obs init ops
 
 let ops_of s = String.split_on_char ';' s
 
@@ -256,14 +295,19 @@ let model inp =
   | ["Q"; k; ops] ->
     let init = if k = "z" then M.zero_queue zero else M.new_queue zero in
     Some (queue_history (M.qstep zero) init (ops_of ops))
-  | ["S"; ops] -> Some (stack_history (M.sstep zero) [] (ops_of ops))
+  | [k; ops] when stack_kind k <> None ->
+    let (cycle, spec_only) = (match stack_kind k with Some c -> c | None -> (0, false)) in
+    if spec_only then Some (stack_history cycle (M.sastep zero) [] (ops_of ops))
+    else Some (stack_history cycle (M.sstep zero) [] (ops_of ops))
   | _ -> None
 
 let reference inp =
   match words inp with
   | ["L"; ops] -> Some (list_history (M.astep zero) (fun a -> List.length (snd a)) M.ainit (ops_of ops))
   | ["Q"; _; ops] -> Some (queue_history (M.aqstep zero) [] (ops_of ops))
-  | ["S"; ops] -> Some (stack_history (M.sastep zero) [] (ops_of ops))
+  | [k; ops] when stack_kind k <> None ->
+    let (cycle, _) = (match stack_kind k with Some c -> c | None -> (0, false)) in
+    Some (stack_history cycle (M.sastep zero) [] (ops_of ops))
   | _ -> None
 
 let eval inp = match model inp with Some s -> s | None -> "?"
